@@ -47,7 +47,9 @@ def faulty(topo, cfg, culprit, kind):
                     state['delivered'] = True
             if ev == 'request' and sid == culprit and f == want and state['fired_at'] is None:
                 pass
-            if ev == 'request' and f == 'step' and state['delivered']:
+            if ev == 'request' and f == 'step' and state['delivered'] and sid == culprit:
+                # other simulators may still receive requests that were already on their way when the error surfaced;
+                # the culprit itself must not be stepped again on the strength of the malformed reply
                 state['after'].append((sid, payload[0]))
 
         # arm: the reply being delivered is the one of the fault step
@@ -76,7 +78,7 @@ def faulty(topo, cfg, culprit, kind):
             # the statement asks for "an error identifying the simulator"; an `assert` is not one (it disappears under python -O,
             # after which the reply would be silently accepted), any other exception type is
             eng.check(et != 'AssertionError', 'C13.errtype', f'the reply is only caught by an assert statement ({msg[:80]!r}): {desc}', {'fp': fp + [et], 'exc_type': et})
-        eng.check(not state['after'], 'C13.continued', f'step requests after the malformed reply was delivered: {state["after"]}: {desc}', {'fp': fp})
+        eng.check(not state['after'], 'C13.continued', f'the culprit was stepped again after its malformed reply was delivered: {state["after"]}: {desc}', {'fp': fp})
         return (r.outcome, {'nontrivial': True, 'fault_at': state['fired_at']})
     return h
 
@@ -88,7 +90,7 @@ def jobs(tier):
     plans = [('tb2', ['A', 'B']), ('hyb2', ['A', 'B']), ('tb_ev', ['A', 'B']), ('weak2', ['A', 'B'])]
     if not q:
         plans += [('ev2', ['A', 'B']), ('tbloop', ['A', 'B']), ('hy_tb', ['A', 'B']),
-                  ('chain3', ['A', 'B', 'C']), ('fanin', ['A', 'B', 'C']), ('grp_sib', ['A', 'B']), ('tbchain3', ['B'])]
+                  ('chain3ev', ['A', 'B']), ('fanin', ['B', 'C']), ('grp_sib', ['A', 'B']), ('tbchain3', ['B'])]
     for name, culprits in plans:
         t = cur[name]
         for culprit in culprits:
@@ -105,6 +107,8 @@ def jobs(tier):
                         cfg = {'until': 3, 'K': 3, 'cache': cache, 'lazy': True, 'D': 0, 'sync': sync, 'salt': 0}
                         if name == 'weak2':
                             cfg.update({'no_self': ['A', 'B'], 'until': 2, 'K': 3 if q else 4})
+                        if len(t['types']) > 2:
+                            cfg['K'] = 2
                         out.append({'id': f"{name}|{culprit}|{kind}|sync={''.join(sync) or '-'}|cache={int(cache)}",
                                     'harness': 'vk.kernels.c13:faulty',
                                     'params': {'topo': t, 'cfg': cfg, 'culprit': culprit, 'kind': kind}, 'budget_s': 200})
